@@ -103,6 +103,8 @@ def run(facts, chk, tier, only=None):
     from . import cli_e2e
     # the subcommand through ska::main() itself (argument parser replaced by a constructed Args value): hand-over of CLI values, width dispatch
     chk.guard('C14.cli', 'C14.cli:run0', lambda: cli_e2e.check_nk_distance(facts, chk, 'C14.cli', tier, 'distance'))
+    from . import cli_parsers
+    cli_parsers.check_frequency_options(facts, chk, 'C14.opt')
     from . import cli_more
     chk.guard('C14.cli', 'C14.cli:run1', lambda: cli_more.check_distance_output(facts, chk, 'C14.cli', tier))
     from . import e2e
